@@ -143,6 +143,9 @@ def keeps_order(res, vs):
 
 
 # ------------------------------------------------------------------ contracts: the single-line path
+# Style note: every clause is first bound to a local (`c1 = ...`) and the return is a conjunction of locals.  pyvc
+# keeps side facts met while evaluating `a and b` as `a => fact`; with top-level `and` chains of quantified clauses
+# those guards are whole clauses.  Binding first keeps the obligations small; the native reading is unchanged.
 @contract("sqlfluff.core.rules.noqa:NoQaDirective._filter_violations_single_line", PROP)
 class filter_violations_single_line:
     types = {"self": NoQaDirective, "violations": TList(SQLBaseError), "matched_violations": TList(SQLBaseError)}
@@ -151,23 +154,27 @@ class filter_violations_single_line:
 
     def requires(self, violations):
         # `assert not self.action` (code); violations are distinct objects (what the linter produces)
-        return self.action is None and distinct(violations) and (self.rules is None or len(self.rules) >= 0)
+        c1 = self.action is None
+        c2 = distinct(violations)
+        c3 = self.rules is None or len(self.rules) >= 0     # (type invariant; read here so that it is a hypothesis)
+        return c1 and c2 and c3
 
     def ensures(self, violations, result, old):
-        return (
-            AX() and
-            all(any(result[i] is violations[k] and not matched(self, violations[k]) for k in range(len(violations)))
-                for i in range(len(result)))
-            and all(implies(not matched(self, violations[k]), any(result[i] is violations[k] for i in range(len(result))))
+        ax = AX()
+        sub = all(any(result[i] is violations[k] and not matched(self, violations[k]) for k in range(len(violations)))
+                  for i in range(len(result)))
+        every = all(implies(not matched(self, violations[k]), any(result[i] is violations[k] for i in range(len(result))))
                     for k in range(len(violations)))
-            and keeps_order(result, violations) and distinct(result)
-            # used' == used or (some violation matched)
-            and self.used == (old.self.used or any(matched(self, violations[k]) for k in range(len(violations)))))
+        order = keeps_order(result, violations)
+        dis = distinct(result)
+        # used' == used or (some violation matched)
+        used = self.used == (old.self.used or any(matched(self, violations[k]) for k in range(len(violations))))
+        return ax and sub and every and order and dis and used
 
 
 @spec
 def hp_upto(v, ds, n):
-    """some plain directive among the first n of ds is on v's line and covers it"""
+    """some directive among the first n of ds is on v's line and covers it"""
     return any(matched(ds[i], v) for i in range(0, n))
 
 
@@ -186,29 +193,33 @@ class ignore_masked_violations_single_line:
 
     def requires(violations, ignore_mask):
         # docstring: "ONLY contain NoQaDirectives with action=None"
-        return all(ignore_mask[i].action is None for i in range(len(ignore_mask))) and distinct(violations)
+        c1 = all(ignore_mask[i].action is None for i in range(len(ignore_mask)))
+        c2 = distinct(violations)
+        return c1 and c2
 
     def ensures(violations, ignore_mask, result):
-        return (
-            AX() and
-            all(any(result[i] is violations[k] and not hidden_plain(violations[k], ignore_mask) for k in range(len(violations)))
-                for i in range(len(result)))
-            and all(implies(not hidden_plain(violations[k], ignore_mask), any(result[i] is violations[k] for i in range(len(result))))
+        ax = AX()
+        sub = all(any(result[i] is violations[k] and not hidden_plain(violations[k], ignore_mask) for k in range(len(violations)))
+                  for i in range(len(result)))
+        every = all(implies(not hidden_plain(violations[k], ignore_mask), any(result[i] is violations[k] for i in range(len(result))))
                     for k in range(len(violations)))
-            and keeps_order(result, violations) and distinct(result)
-            # `used`, post-state part: the first directive that matches a violation is marked; in particular
-            # the ONLY covering directive of a hidden violation is marked
-            and first_matcher_used(ignore_mask, violations, len(ignore_mask)))
+        order = keeps_order(result, violations)
+        dis = distinct(result)
+        # `used`, post-state part: the first directive that matches a violation is marked; in particular the
+        # ONLY covering directive of a hidden violation is marked
+        used = first_matcher_used(ignore_mask, violations, len(ignore_mask))
+        return ax and sub and every and order and dis and used
 
     def inv_1(violations, ignore_mask, old, _i):
-        return (
-            AX() and
-            all(any(violations[i] is old.violations[k] and not hp_upto(old.violations[k], ignore_mask, _i)
-                    for k in range(len(old.violations))) for i in range(len(violations)))
-            and all(implies(not hp_upto(old.violations[k], ignore_mask, _i), any(violations[i] is old.violations[k] for i in range(len(violations))))
+        ax = AX()
+        sub = all(any(violations[i] is old.violations[k] and not hp_upto(old.violations[k], ignore_mask, _i)
+                      for k in range(len(old.violations))) for i in range(len(violations)))
+        every = all(implies(not hp_upto(old.violations[k], ignore_mask, _i), any(violations[i] is old.violations[k] for i in range(len(violations))))
                     for k in range(len(old.violations)))
-            and keeps_order(violations, old.violations) and distinct(violations)
-            and first_matcher_used(ignore_mask, old.violations, _i))
+        order = keeps_order(violations, old.violations)
+        dis = distinct(violations)
+        used = first_matcher_used(ignore_mask, old.violations, _i)
+        return ax and sub and every and order and dis and used
 
 
 # ------------------------------------------------------------------ contracts: the range path
@@ -216,6 +227,12 @@ class ignore_masked_violations_single_line:
 def live_at(d, line_no):
     """an enable/disable directive at or before the line"""
     return d.action is not None and d.line_no <= line_no
+
+
+@spec
+def last_live(ds, line_no, k):
+    """ds[k] is the last enable/disable directive of the (line-sorted) list at or before the line"""
+    return live_at(ds[k], line_no) and all(not live_at(ds[j], line_no) for j in range(k + 1, len(ds)))
 
 
 @contract("sqlfluff.core.rules.noqa:IgnoreMask._should_ignore_violation_line_range", PROP)
@@ -230,26 +247,23 @@ class should_ignore_violation_line_range:
                    for a in range(len(ignore_rules)) for b in range(a + 1, len(ignore_rules)))
 
     def ensures(line_no, ignore_rules, result):
-        return (
-            # ignore == the last enable/disable directive at or before line_no is a disable
-            result[0] == any(ignore_rules[k].action == "disable" and live_at(ignore_rules[k], line_no)
-                             and all(not live_at(ignore_rules[j], line_no) for j in range(k + 1, len(ignore_rules)))
-                             for k in range(len(ignore_rules)))
-            # last_ignore is that directive
-            and (result[1] is None) == (not result[0])
-            and implies(result[0], any(result[1] is ignore_rules[k]
-                                       and ignore_rules[k].action == "disable" and live_at(ignore_rules[k], line_no)
-                                       and all(not live_at(ignore_rules[j], line_no) for j in range(k + 1, len(ignore_rules)))
-                                       for k in range(len(ignore_rules)))))
+        # ignore == the last enable/disable directive at or before line_no is a disable
+        c1 = result[0] == any(ignore_rules[k].action == "disable" and last_live(ignore_rules, line_no, k)
+                              for k in range(len(ignore_rules)))
+        # last_ignore is that directive (None when not ignoring)
+        c2 = (result[1] is None) == (not result[0])
+        c3 = implies(result[0], any(result[1] is ignore_rules[k] and ignore_rules[k].action == "disable"
+                                    and last_live(ignore_rules, line_no, k) for k in range(len(ignore_rules))))
+        return c1 and c2 and c3
 
     def inv_1(line_no, ignore_rules, ignore, last_ignore, _i):
-        return (
-            all(ignore_rules[j].line_no <= line_no for j in range(0, _i))
-            and ignore == any(ignore_rules[k].action == "disable"
-                              and all(ignore_rules[j].action is None for j in range(k + 1, _i)) for k in range(0, _i))
-            and (last_ignore is None) == (not ignore)
-            and implies(ignore, any(last_ignore is ignore_rules[k] and ignore_rules[k].action == "disable"
-                                    and all(ignore_rules[j].action is None for j in range(k + 1, _i)) for k in range(0, _i))))
+        c1 = all(ignore_rules[j].line_no <= line_no for j in range(0, _i))
+        c2 = ignore == any(ignore_rules[k].action == "disable"
+                           and all(ignore_rules[j].action is None for j in range(k + 1, _i)) for k in range(0, _i))
+        c3 = (last_ignore is None) == (not ignore)
+        c4 = implies(ignore, any(last_ignore is ignore_rules[k] and ignore_rules[k].action == "disable"
+                                 and all(ignore_rules[j].action is None for j in range(k + 1, _i)) for k in range(0, _i)))
+        return c1 and c2 and c3 and c4
 
 
 @contract("sqlfluff.core.rules.noqa:IgnoreMask._ignore_masked_violations_line_range", PROP)
@@ -263,22 +277,24 @@ class ignore_masked_violations_line_range:
         return distinct(violations)
 
     def ensures(violations, ignore_mask, result):
-        return (
-            AX() and
-            all(any(result[i] is violations[k] and not hidden_range(violations[k], ignore_mask) for k in range(len(violations)))
-                for i in range(len(result)))
-            and all(implies(not hidden_range(violations[k], ignore_mask), any(result[i] is violations[k] for i in range(len(result))))
+        ax = AX()
+        sub = all(any(result[i] is violations[k] and not hidden_range(violations[k], ignore_mask) for k in range(len(violations)))
+                  for i in range(len(result)))
+        every = all(implies(not hidden_range(violations[k], ignore_mask), any(result[i] is violations[k] for i in range(len(result))))
                     for k in range(len(violations)))
-            and keeps_order(result, violations) and distinct(result))
+        order = keeps_order(result, violations)
+        dis = distinct(result)
+        return ax and sub and every and order and dis
 
     def inv_1(violations, ignore_mask, result, _i):
-        return (
-            AX() and
-            all(any(result[i] is violations[k] and not hidden_range(violations[k], ignore_mask) for k in range(0, _i))
-                for i in range(len(result)))
-            and all(implies(not hidden_range(violations[k], ignore_mask), any(result[i] is violations[k] for i in range(len(result))))
+        ax = AX()
+        sub = all(any(result[i] is violations[k] and not hidden_range(violations[k], ignore_mask) for k in range(0, _i))
+                  for i in range(len(result)))
+        every = all(implies(not hidden_range(violations[k], ignore_mask), any(result[i] is violations[k] for i in range(len(result))))
                     for k in range(0, _i))
-            and keeps_order(result, violations) and distinct(result))
+        order = keeps_order(result, violations)
+        dis = distinct(result)
+        return ax and sub and every and order and dis
 
 
 # ------------------------------------------------------------------ contracts: the top level
@@ -293,13 +309,14 @@ class ignore_masked_violations:
 
     def ensures(self, violations, result):
         # result == [v for v in violations if not hidden(v, directives)]   (order kept)
-        return (
-            AX() and
-            all(any(result[i] is violations[k] and not hidden(violations[k], self._ignore_list) for k in range(len(violations)))
-                for i in range(len(result)))
-            and all(implies(not hidden(violations[k], self._ignore_list), any(result[i] is violations[k] for i in range(len(result))))
+        ax = AX()
+        sub = all(any(result[i] is violations[k] and not hidden(violations[k], self._ignore_list) for k in range(len(violations)))
+                  for i in range(len(result)))
+        every = all(implies(not hidden(violations[k], self._ignore_list), any(result[i] is violations[k] for i in range(len(result))))
                     for k in range(len(violations)))
-            and keeps_order(result, violations) and distinct(result))
+        order = keeps_order(result, violations)
+        dis = distinct(result)
+        return ax and sub and every and order and dis
 
 
 # ------------------------------------------------------------------ unused-noqa warnings
@@ -309,29 +326,30 @@ def warns_at(w, d):
     return w.line_no == d.line_no and w.line_pos == d.line_pos and w.rule_code() == "NOQA" and w.warning
 
 
+@spec
+def before(a, b):
+    """source position of a precedes that of b"""
+    return (a.line_no, a.line_pos) < (b.line_no, b.line_pos)
+
+
 @contract("sqlfluff.core.rules.noqa:IgnoreMask.generate_warnings_for_unused", PROP)
 class generate_warnings_for_unused:
     types = {"self": IgnoreMask}
     ret = TList(SQLBaseError)
 
     def requires(self):
-        # distinct comments start at distinct source positions
-        return all((self._ignore_list[a].line_no, self._ignore_list[a].line_pos)
-                   != (self._ignore_list[b].line_no, self._ignore_list[b].line_pos)
+        # directives are kept in source order; distinct comments start at distinct source positions
+        return all(before(self._ignore_list[a], self._ignore_list[b])
                    for a in range(len(self._ignore_list)) for b in range(a + 1, len(self._ignore_list)))
 
     def ensures(self, result):
-        return (
-            # exactly: one warning per directive with `not used`, none otherwise, in directive order
-            all(any(not self._ignore_list[i].used and warns_at(result[a], self._ignore_list[i])
-                    for i in range(len(self._ignore_list))) for a in range(len(result)))
-            and all(implies(not self._ignore_list[i].used, any(warns_at(result[a], self._ignore_list[i]) for a in range(len(result))))
-                    for i in range(len(self._ignore_list)))
-            and all((result[a].line_no, result[a].line_pos) != (result[b].line_no, result[b].line_pos)
-                    for a in range(len(result)) for b in range(a + 1, len(result)))
-            and all(implies(warns_at(result[a], self._ignore_list[i]) and warns_at(result[b], self._ignore_list[j]), a < b)
-                    for a in range(len(result)) for b in range(len(result))
-                    for i in range(len(self._ignore_list)) for j in range(i + 1, len(self._ignore_list))))
+        # exactly: one warning per directive with `not used`, none otherwise, in directive order
+        c1 = all(any(not self._ignore_list[i].used and warns_at(result[a], self._ignore_list[i])
+                     for i in range(len(self._ignore_list))) for a in range(len(result)))
+        c2 = all(implies(not self._ignore_list[i].used, any(warns_at(result[a], self._ignore_list[i]) for a in range(len(result))))
+                 for i in range(len(self._ignore_list)))
+        c3 = all(before(result[a], result[b]) for a in range(len(result)) for b in range(a + 1, len(result)))
+        return c1 and c2 and c3
 
 
 # ------------------------------------------------------------------ native builders
